@@ -67,6 +67,26 @@ RunResult run_plan(const Plan &plan, Stats *total, bool want_allocs) {
     }
     size_t live = simrt::heap_end_run();
     (void)simrt::heap_take_violation(nullptr, 0);
+    // Storage that an object with static or thread storage duration still refers to (a per-thread scratch stream, a one-slot cache) is retained,
+    // not leaked: it goes when the thread or the process ends.  It is a leak all the same if it *grows* every time the same history is
+    // repeated - nothing bounded behaves like that.  Costs nothing on a tree that retains nothing.
+    static bool in_repeat = false;
+    const size_t retained = simrt::heap_last_retained_blocks();
+    if (retained && !in_repeat) {
+        probe(c, PR_RETAINED_BY_STATIC);
+        if (!c.viol.set && !saved.set && !live) {
+            in_repeat = true;
+            size_t b[9]; b[0] = simrt::heap_sut_bytes_live(); bool clean = true;
+            for (int r = 1; r <= 8 && clean; r++) { RunResult x = run_plan(plan, nullptr, false); b[r] = simrt::heap_sut_bytes_live(); clean = !x.viol.set; }
+            in_repeat = false;
+            simrt::fatal_context("prop=C%02d i=%llu runseed=%llu step=%d site=%s", c.prop, (unsigned long long)g_run_index, (unsigned long long)plan.k.seed, (int)plan.ops.size(), "teardown");
+            if (clean && b[8] > b[4] && b[4] > b[0]) {
+                c.site = "teardown";
+                set_viol(c, "leak", "storage held by a static or thread-local object grows every time the same history is repeated (" + std::to_string(b[0]) + " -> " + std::to_string(b[4]) + " -> " + std::to_string(b[8]) + " bytes after 1, 5, 9 executions)");
+                rr.step = (int)plan.ops.size();
+            }
+        }
+    }
     if (!c.viol.set && live) {
         c.site = "teardown";
         set_viol(c, "leak", std::to_string(live) + " block(s) allocated by library code are still live after every object was destroyed");
